@@ -777,6 +777,48 @@ def check_rotate(res, ctx, centres, singles, pairs):
             res.outcome(('rotate2', _shape_class(shape)))
 
 
+def check_rotate_near_centre(res):
+    """Points closer to the rotation centre than the tolerance of PixCoord.__eq__ (relative 1e-5, absolute 1e-8) are
+    rotated like any other point: full product of centre x offset x angle, scalars and arrays."""
+    from regions import PixCoord
+    import astropy.units as u
+    centres = [(20000.0, 20000.0), (0.0, 0.0), (-3.0e6, 7.5)]
+    for cx, cy in centres:
+        big = max(abs(cx), abs(cy))
+        offs = [(0.1 if big > 1 else 4e-9, 0.0), (0.0, -0.05 if big > 1 else 3e-9), (1e-3 * (big > 1) + 2e-9, 1e-3 * (big > 1) + 1e-9)]
+        for deg in (90.0, 180.0, 30.0, -123.4):
+            th = math.radians(deg)
+            case = {'op': 'rotate_near_centre', 'sx': [], 'sy': [], 'kind': 'f8', 'centre': [cx, cy], 'angle_deg': deg}
+            res.states += 1
+            res.evaluations += 1
+            px = np.array([cx + dx for dx, dy in offs])
+            py = np.array([cy + dy for dx, dy in offs])
+            for form in ('array', 'scalar'):
+                res.transitions += 1
+                if form == 'array':
+                    ok, r = _call(res, lambda: PixCoord(px, py).rotate(PixCoord(cx, cy), deg * u.deg))
+                    got = None if not ok else (np.asarray(r.x, float), np.asarray(r.y, float))
+                else:
+                    ok, r = _call(res, lambda: [PixCoord(float(a), float(b)).rotate(PixCoord(cx, cy), deg * u.deg) for a, b in zip(px, py)])
+                    got = None if not ok else (np.array([float(q.x) for q in r]), np.array([float(q.y) for q in r]))
+                if not ok:
+                    _V(res, 'unexpected_exception', case, f'rotate near the centre raised {_ex(r)}')
+                    continue
+                dx, dy = px - cx, py - cy
+                ex = cx + dx * math.cos(th) - dy * math.sin(th)
+                ey = cy + dx * math.sin(th) + dy * math.cos(th)
+                tol = 1e-12 * (1.0 + big) + 1e-3 * np.hypot(dx, dy)
+                err = np.hypot(got[0] - ex, got[1] - ey)
+                if not np.all(err <= tol):
+                    k = int(np.argmax(err / tol))
+                    _V(res, 'rotate_wrong', {**case, 'form': form},
+                       f'rotating ({px[k]!r}, {py[k]!r}) about ({cx}, {cy}) by {deg} deg ({form}) gives ({got[0][k]!r}, {got[1][k]!r}), expected '
+                       f'({ex[k]!r}, {ey[k]!r}): the offset from the centre ({dx[k]!r}, {dy[k]!r}) is not rotated', [float(ex[k]), float(ey[k])],
+                       [float(got[0][k]), float(got[1][k])])
+            res.nontriv(('rotate_near_centre', cx, cy, deg))
+            res.outcome(('rotate_near_centre', deg))
+
+
 # ------------------------------------------------------------- copy and == --
 def check_copy_eq(res, ctx):
     from regions import PixCoord
@@ -1170,6 +1212,7 @@ def run_shard(shard, tier, seed):
                     res.axis('wcs_proj', ws['proj'] + ('-SIP' if ws['sip'] else '') + ('-CPDIS' if ws.get('lookup') else ''))
         elif shard['kind'] == 'sep_extreme':
             check_sep_extreme(res)
+            check_rotate_near_centre(res)
         else:
             raise ValueError(shard['kind'])
     return res
@@ -1202,6 +1245,8 @@ def replay(case):
             check_wcs(res, ctx, [case['wcs']], [case['origin']], [case['mode']])
         elif op == 'sep_extreme':
             check_sep_extreme(res)
+        elif op == 'rotate_near_centre':
+            check_rotate_near_centre(res)
         else:
             raise ValueError(op)
     return res
